@@ -150,6 +150,23 @@ class SigmaListModifier(SigmaModifier[T, R]):
 
 
 ### Modifier Implementations ###
+def _regex_end_is_open(regexp_str: str) -> bool:
+    """True if the regular expression ends with '.*' or is anchored with '$', where the dot resp.
+    the dollar sign is not escaped (an odd number of backslashes before it makes it a literal)."""
+
+    def escaped(pos: int) -> bool:
+        backslashes = 0
+        while pos - backslashes > 0 and regexp_str[pos - backslashes - 1] == "\\":
+            backslashes += 1
+        return backslashes % 2 == 1
+
+    if regexp_str.endswith(".*"):
+        return not escaped(len(regexp_str) - 2)
+    if regexp_str.endswith("$"):
+        return not escaped(len(regexp_str) - 1)
+    return False
+
+
 class SigmaContainsModifier(
     SigmaValueModifier[
         SigmaString | SigmaRegularExpression | SigmaFieldReference,
@@ -170,7 +187,7 @@ class SigmaContainsModifier(
             regexp_str = str(val.regexp)
             if regexp_str[:2] != ".*" and regexp_str[:1] != "^":
                 val.regexp = SigmaString(".") + SpecialChars.WILDCARD_MULTI + val.regexp
-            if regexp_str[-2:] != ".*" and regexp_str[-1:] != "$":
+            if not _regex_end_is_open(regexp_str):
                 val.regexp += SigmaString(".") + SpecialChars.WILDCARD_MULTI
             val.compile()
         elif isinstance(val, SigmaFieldReference):
@@ -195,7 +212,7 @@ class SigmaStartswithModifier(
                 val += SpecialChars.WILDCARD_MULTI
         elif isinstance(val, SigmaRegularExpression):
             regexp_str = str(val.regexp)
-            if regexp_str[-2:] != ".*" and regexp_str[-1:] != "$":
+            if not _regex_end_is_open(regexp_str):
                 val.regexp += SigmaString(".") + SpecialChars.WILDCARD_MULTI
             val.compile()
         elif isinstance(val, SigmaFieldReference):
